@@ -186,7 +186,7 @@ def run_case(case):
                 m1 = (pr * ax).sum() * delta / pop[ri, b]
                 m2 = (pr * (ax - m1) ** 2).sum() * delta / pop[ri, b]
                 g1, g2 = float(h[mean_ds][ri, b]), float(h[rms_ds][ri, b])
-                e = max(abs(g1 - m1), abs(g2 - np.sqrt(max(m2, 0)))) / pq
+                e = max(abs(g1 - m1), abs(g2 - np.sqrt(max(m2, 0)))) / max(pq, abs(m1), np.sqrt(max(m2, 0)))   # relative for blown-up (unstable) runs
                 met["mom_err"] = max(met.get("mom_err", 0), e)
                 if e > 3e-5:
                     return fail(nontriv, cls, "record %d bunch %d: stored %s mean/rms %.7g/%.7g, moments of the stored profile %.7g/%.7g" % (ri, b, nm, g1, g2, m1, np.sqrt(max(m2, 0))), "moments:%s" % nm, met)
